@@ -26,7 +26,7 @@ def _pad_reuse_expr(array, pad_width, mode, **kwargs):
     from dask_array.manipulation._flip import flip
 
     if mode in {"reflect", "symmetric"}:
-        reflect_type = kwargs.get("reflect", "even")
+        reflect_type = kwargs.get("reflect_type", "even")
         if reflect_type == "odd":
             raise NotImplementedError("`pad` does not support `reflect_type` of `odd`.")
         if reflect_type != "even":
